@@ -487,7 +487,7 @@ func init() {
 			if c.Index%4 == 0 && !e.Dead && e.M.Latest > 0 && len(c.Res.Violations) == 0 {
 				multi += cutImport(c, e, pl)
 			}
-			if c.Index%60 == 30 && len(c.Res.Violations) == 0 {
+			if c.Index%62 == 30 && len(c.Res.Violations) == 0 {
 				multi += cutBigImport(c)
 			}
 			c.Obs("steps", e.Step)
